@@ -2,11 +2,15 @@
 """Try the checks against the seeded changes in /verif/seeded: each change is applied in its own scratch worktree of /repo
 (never in /repo itself), the checks of the named properties run against that tree (PYVC_REPO), results are tabulated.
 
-usage: tools/run_seeds.py [-j N] [--props own|C05,C08] [seed ids...]"""
+usage: tools/run_seeds.py [-j N] [--props own|C05,C08] [--dir seeded|refactors] [seed ids...]
+
+--dir refactors: the behaviour-preserving changes under /verif/refactors (expected verdict: exit 0, anything else is a false
+alarm or a brittle proof); results go to refactors/RESULTS.json."""
 import json, os, subprocess, sys, concurrent.futures as cf, shutil, re
 
 VERIF = os.path.dirname(os.path.dirname(os.path.abspath(__file__)))
 SCR = "/tmp/seedrun"
+DIR = "seeded"
 
 
 def run_one(sid, props, jobs):
@@ -17,7 +21,7 @@ def run_one(sid, props, jobs):
         return sid, {"error": r.stderr[-300:]}
     res = {}
     try:
-        a = subprocess.run(["git", "-C", wt, "apply", f"{VERIF}/seeded/{sid}/patch.diff"], capture_output=True, text=True)
+        a = subprocess.run(["git", "-C", wt, "apply", f"{VERIF}/{DIR}/{sid}/patch.diff"], capture_output=True, text=True)
         if a.returncode:
             return sid, {"error": "patch does not apply: " + a.stderr[-200:]}
         for p in props:
@@ -41,8 +45,11 @@ def main():
             jobs = int(args[1]); args = args[2:]
         elif args[0] == "--props":
             props_arg = args[1]; args = args[2:]
-    ids = args or sorted(os.listdir(f"{VERIF}/seeded"))
-    ids = [i for i in ids if os.path.isdir(f"{VERIF}/seeded/{i}")]
+        elif args[0] == "--dir":
+            global DIR
+            DIR = args[1]; args = args[2:]
+    ids = args or sorted(os.listdir(f"{VERIF}/{DIR}"))
+    ids = [i for i in ids if os.path.isdir(f"{VERIF}/{DIR}/{i}")]
     os.makedirs(SCR, exist_ok=True)
     out = {}
     with cf.ThreadPoolExecutor(par) as ex:
@@ -65,7 +72,7 @@ def main():
     shutil.rmtree(SCR, ignore_errors=True)
     json.dump(out, open(f"{VERIF}/out/seed_results.json", "w"), indent=1)
     # committed catch matrix: merged over runs, one entry per seed and property checked
-    path = f"{VERIF}/seeded/RESULTS.json"
+    path = f"{VERIF}/{DIR}/RESULTS.json"
     allr = json.load(open(path)) if os.path.exists(path) else {}
     head = subprocess.run(["git", "-C", "/repo", "rev-parse", "--short", "HEAD"], capture_output=True, text=True).stdout.strip()
     for sid, res in out.items():
@@ -76,7 +83,9 @@ def main():
                 continue
             ent.pop("error", None)
             obl = sorted({m.group(1) for ln in r["lines"] for m in [re.search(r"obligation=(\S+)", ln)] if m and ln.startswith("VIOLATION")})
-            ent[p] = {"exit": r["exit"], "verdict": {0: "MISSED", 1: "detected", 2: "undecided", 3: "checker-error"}.get(r["exit"], "?"),
+            ent[p] = {"exit": r["exit"], "verdict": ({0: "MISSED", 1: "detected", 2: "undecided", 3: "checker-error"} if DIR == "seeded" else
+                                  {0: "still proved", 1: "FALSE ALARM", 2: "undecided (brittle)", 3: "checker-error"}).get(r["exit"], "?"),
+                      "lines": r["lines"][:3] if r["exit"] != (1 if DIR == "seeded" else 0) else [],
                       "failed_obligations": obl[:6], "replayed_input": any(ln.startswith("VIOLATION") and not ln.rstrip().endswith("no-failing-input-found") for ln in r["lines"]),
                       "repo_head": head}
     json.dump(allr, open(path, "w"), indent=1, sort_keys=True)
